@@ -12,6 +12,8 @@
      P:exc     an exception that is neither KeyError nor the 415 error escaped
      P:stale   a resolution returned a handler the CURRENT mapping (as the object itself
                reports it) does not designate for that type by the matching rule
+     P:first   no key is literally equal to the effective type, and the handler returned is not the one under
+               the FIRST registered key of maximal positive quality (the matching rule's best match)
      P:415     "unsupported" although a key of the current mapping matches, or a handler
                although none matches; or the error was (not) raised against raise_not_found
      D:which   a designated handler, but not the one Handlers!Designated picks (exact key
@@ -22,14 +24,14 @@ EXTENDS Handlers, Json, IOUtils
 
 Traces == JsonDeserialize(IOEnv.TRACE_FILE)
 
-VARIABLES tid, l, verdict, dnote
-tvars == <<tid, l, verdict, dnote, objs, last>>
+VARIABLES tid, l, verdict, dnote, ns
+tvars == <<tid, l, verdict, dnote, ns, objs, last>>
 
 T == Traces[tid]
 
-TInit == /\ tid \in 1..Len(Traces) /\ l = 1 /\ verdict = "ok" /\ dnote = "ok"
+TInit == /\ tid \in 1..Len(Traces) /\ l = 1 /\ verdict = "ok" /\ dnote = "ok" /\ ns = 0
          /\ objs = <<[map |-> Traces[tid].init, memo |-> {}]>>
-         /\ last = Rec("init", 0, NOKEY, 0, NOKEY, NOKEY, FALSE, 0, FALSE)
+         /\ last = Rec("init", 0, NOKEY, 0, NOCT, NOKEY, FALSE, 0, FALSE)
 
 Valid(e) == /\ e.o \in DOMAIN objs
             /\ e.op \in {"set", "del", "pop", "update", "updatefail", "clear", "setdefault", "copy", "resolve"}
@@ -51,9 +53,15 @@ JudgeP(e) ==
     ELSE IF e.op # "resolve" THEN "ok"
     ELSE LET ds == DesignatedSet(e.map, e.ct, e.d) IN
          IF e.res # NONE /\ e.res \notin ds THEN "P:stale"
+         ELSE IF e.res # NONE /\ ~ShortcutApplies(e.map, e.ct, e.d) /\ e.res # RuleDesignated(e.map, e.ct, e.d) THEN "P:first"
          ELSE IF (e.res = NONE) # (ds = {}) THEN "P:415"
          ELSE IF (e.exc = "415") # (e.res = NONE /\ e.r) THEN "P:415"
          ELSE "ok"
+
+(* evidence counter: resolutions of a type that is NOT literally a key while >= 2 keys of the reported mapping have
+   maximal positive quality under different handlers (only P:first tells them apart) *)
+Informative(e) == /\ e.op = "resolve" /\ ~ShortcutApplies(e.map, e.ct, e.d)
+                  /\ Cardinality(DesignatedSet(e.map, e.ct, e.d)) >= 2
 
 (* model detail; x = the model's record of the call, m = the model's mapping afterwards *)
 JudgeD(e, x, m) ==
@@ -73,12 +81,13 @@ Step ==
                           ELSE LET d == JudgeD(e, last', objs'[IF e.op = "copy" THEN Len(objs') ELSE e.o].map)
                                IN IF d = "ok" THEN "ok" ELSE d \o "#" \o ToString(l)
          ELSE /\ verdict' = "H:invalid" /\ UNCHANGED <<objs, last, dnote>>
+    /\ ns' = ns + (IF Informative(T.ev[l]) THEN 1 ELSE 0)
     /\ l' = l + 1 /\ UNCHANGED tid
 
 Done ==
     /\ l >= 1 /\ (l > Len(T.ev) \/ verdict # "ok")
-    /\ PrintT(<<"VERDICT", tid, IF verdict = "ok" THEN dnote ELSE verdict, l - 1>>)
-    /\ l' = -1 /\ UNCHANGED <<tid, verdict, dnote, objs, last>>
+    /\ PrintT(<<"VERDICT", tid, IF verdict = "ok" THEN dnote ELSE verdict, l - 1, ns>>)
+    /\ l' = -1 /\ UNCHANGED <<tid, verdict, dnote, ns, objs, last>>
 
 TNext == Step \/ Done
 TSpec == TInit /\ [][TNext]_tvars
